@@ -29,7 +29,7 @@ def django_env():
     from django.conf import settings
     if not settings.configured:
         settings.configure(INSTALLED_APPS=["vapp"], DATABASES={"default": {"ENGINE": "django.db.backends.sqlite3", "NAME": ":memory:"}},
-                           DEFAULT_AUTO_FIELD="django.db.models.AutoField", USE_TZ=True)
+                           DEFAULT_AUTO_FIELD="django.db.models.AutoField", USE_TZ=True, TIME_ZONE="UTC")
     import os
     here = os.path.dirname(os.path.abspath(__file__))
     if here not in sys.path:
@@ -180,12 +180,14 @@ def orm_visitors():
         from odata_query.sqlalchemy.core import AstToSqlAlchemyCoreVisitor
         out.append(("AstToSqlAlchemyOrmVisitor", lambda n: AstToSqlAlchemyOrmVisitor(env["P"]).visit(n)))
         out.append(("AstToSqlAlchemyCoreVisitor", lambda n: AstToSqlAlchemyCoreVisitor(env["t_table"]).visit(n)))
+        out.append(("AstToSqlAlchemyOrmVisitor(T)", lambda n: AstToSqlAlchemyOrmVisitor(env["T"]).visit(n)))
     except Exception:  # noqa
         pass
     try:
         denv = django_env()
         from odata_query.django.django_q import AstToDjangoQVisitor
         out.append(("AstToDjangoQVisitor", lambda n: AstToDjangoQVisitor(denv["P"]).visit(n)))
+        out.append(("AstToDjangoQVisitor(T)", lambda n: AstToDjangoQVisitor(denv["T"]).visit(n)))
     except Exception:  # noqa
         pass
     return out
